@@ -91,6 +91,33 @@ func genC02(tier string, seed int64) []Case {
 		}
 	}
 	if tier == "thorough" {
+		// the full product
+		for _, h := range append([]string{"none"}, hists...) {
+			for _, p := range places {
+				for _, idc := range []string{"stale", "unknown", "malformed", "long", "encoded-current"} {
+					if idc == "encoded-current" && p != "dispatched" && p != "responded" {
+						continue
+					}
+					for _, op := range []string{"response", "error"} {
+						for _, sub := range []string{"runtime", "extension", "second-connection"} {
+							for _, n := range []int{0, 1, 2} {
+								if sub == "extension" && n == 0 {
+									continue
+								}
+								add(c02Desc{History: h, Placement: p, IDClass: idc, Op: op, Submitter: sub, NExt: n})
+							}
+						}
+					}
+				}
+			}
+		}
+		for _, h := range []string{"none", "ok", "error"} {
+			for _, n := range []int{0, 1, 2} {
+				for _, op := range []string{"response", "error"} {
+					add(c02Desc{History: h, Placement: "slow-upload", IDClass: "stale", Op: op, Submitter: "second-connection", NExt: n})
+				}
+			}
+		}
 		for _, h := range hists {
 			for _, p := range places {
 				for _, idc := range []string{"stale", "unknown"} {
